@@ -32,7 +32,25 @@ def run(r):
     w = r.model_check('FuncSignalMC', 'FuncSignal_asis.cfg', expect_violation='NoStale')
     fixed = [(l, dict(s_, last=_fresh_last(s_['last']))) for l, s_ in w.trace]
     r.replay(drv, [fixed], 'FuncSignal', 'asis-witness-D2')
-    missing = [o for o in OPS if not r.actions_seen.get(o)]
+    # ---- ray tracers and ray paths (LazyObj.tla) ----
+    from drivers.lazy_drv import LazyDriver
+    import warnings
+    warnings.filterwarnings('ignore')
+    for cfg in ('LazyObj_tracer.cfg', 'LazyObj_path.cfg', 'LazyObj_upath.cfg'):
+        r.model_check('LazyObjMC', cfg)
+    nl = 1500 if thorough else 200
+    for cfg, target, kinds in (('LazyObj_tracer.cfg', 'tracer', ['specialized', 'uniform', 'layered', 'basic']),
+                               ('LazyObj_path.cfg', 'path', ['specialized', 'basic']),
+                               ('LazyObj_upath.cfg', 'path', ['uniform'])):
+        sl = tlc.simulate('LazyObjMC', cfg, 'C06/lazy', num=nl, depth=12, seed=r.seed + 66)
+        r.transitions += sl.generated
+        for kind in kinds:
+            behs = sl.behaviours if kind not in ('basic', 'layered') else sl.behaviours[:max(32, nl // 5)]
+            r.replay(None, behs, 'LazyObj', '%s %s' % (kind, target), parallel=16, factory=LazyDriver,
+                     factory_kw=dict(kind=kind, target=target))
+    wl = r.model_check('LazyObjMC', 'LazyObj_asis.cfg', expect_violation='NoStale')
+    r.extra['lazyobj_identity_skip_witness'] = [core.tlaval.to_json(s_['last']) for _, s_ in wl.trace]
+    missing = [o for o in OPS + ['Assign', 'AugAssign'] if not r.actions_seen.get(o)]
     if missing:
         raise tlc.TLCError('vacuity guard: ops never replayed: %s' % missing)
     r.assumptions += ['filters are integer-sample delays with integer gains (exact shift); |delay| <= padded length',
@@ -53,6 +71,12 @@ def replay(r, path):
     import logging
     logging.disable(logging.WARNING)
     obj, beh = core.load_replay(path)
+    if obj.get('module') == 'LazyObj':
+        from drivers.lazy_drv import LazyDriver
+        kind, target = obj['origin'].split()
+        ok = r.replay_one(LazyDriver(kind, target), beh, 'LazyObj', obj['origin'])
+        print('replay %s: %s' % (path, 'no divergence' if ok else 'DIVERGENCE'))
+        return 0 if ok else 1
     ok = r.replay_one(FuncSignalDriver(), beh, 'FuncSignal', 'replay-file')
     print('replay %s: %s' % (path, 'no divergence' if ok else 'DIVERGENCE'))
     return 0 if ok else 1
